@@ -246,3 +246,20 @@ func (s *stream) corruptFramedMy(pick int, mask byte, tiny int) bool {
 	s.inflight[f.payload+(pick/7)%(f.end-f.payload)] ^= mask
 	return true
 }
+
+// shortenStartup rewrites the length field of a PostgreSQL startup message in flight to n (4..8) and drops
+// the rest of the message beyond 8 bytes, so that the declared length is smaller than the fixed header.
+func (s *stream) shortenStartup(n int) bool {
+	s.mu.Lock()
+	defer s.mu.Unlock()
+	if len(s.inflight) < 8 {
+		return false
+	}
+	declared := int(s.inflight[0])<<24 | int(s.inflight[1])<<16 | int(s.inflight[2])<<8 | int(s.inflight[3])
+	if declared < 8 || declared > len(s.inflight) {
+		return false
+	}
+	s.inflight[0], s.inflight[1], s.inflight[2], s.inflight[3] = 0, 0, 0, byte(n)
+	s.inflight = append(s.inflight[:8], s.inflight[declared:]...)
+	return true
+}
